@@ -34,6 +34,7 @@ ASSUMPTIONS = [
 ]
 EXHAUSTIVE = {'quick': False, 'thorough': False}
 PYOPT_KINDS = (None,)
+CLOCALE_KINDS = (None,)
 TIMEOUT = {'quick': 1500, 'thorough': 10800}
 KNOWN_KEYS = {'label-png-phys-chunk', 'raw-branch-typeerror', 'oversize-not-refused', 'version0-compressed'}
 LIMIT = rc.CODE_SIZE
